@@ -7,7 +7,7 @@ from .rules.refusals import rule_assert, rule_kwsig, rule_raise, rule_regkey
 from .rules.truthy import rule_truthy
 from .rules.purity import rule_pure, rule_args, rule_global, rule_memo
 from .rules.token import rule_token
-from .rules.graph import rule_keys, rule_order, rule_cover
+from .rules.graph import rule_keys, rule_order, rule_cover, rule_axiskey
 from .rules import misc as M
 from .rules.lazyrule import rule_lazy
 from .rules.pickle_nondet import rule_pickle, rule_nondet, rule_fillflow
@@ -112,21 +112,21 @@ PROPERTIES = {
         "explanation": "R-SENTINEL on offset_labels, R-COPERMUTE",
     },
     "C10": {
-        "rules": [M.rule_scantable, rule_stable],
+        "rules": [M.rule_scantable, rule_stable, M.rule_promote],
         "thorough": [selftest],
         "technique": "registry constant-evaluation + scan table; stable-sort sites",
         "level_text": "Static: the three scan blueprints are consistent (operator identity, carried reduction, in-block scan), bfill is the "
                       "mirror image of ffill, and the group sort feeding ffill is stable. Scan values across chunkings are not decided.",
-        "explanation": "R-SCANTABLE, R-STABLE",
+        "explanation": "R-SCANTABLE, R-STABLE, R-PROMOTE",
     },
     "C11": {
-        "rules": [M.rule_dtypetable, M.rule_finalcast],
+        "rules": [M.rule_dtypetable, M.rule_finalcast, M.rule_promote],
         "thorough": [selftest],
         "technique": "dtype convention table; CFG must-pass-through of the final cast; access-path agreement of announced meta",
         "level_text": "Static, all-paths: blueprint dtype declarations follow the NumPy convention table, every path of the finalizer casts "
                       "to the announced slot, the engine dispatch result is cast per kernel, and the lazy meta is built from the same slot. "
                       "Promotion arithmetic and announced-vs-computed chunk sizes are not decided.",
-        "explanation": "R-DTYPETABLE, R-FINALCAST",
+        "explanation": "R-DTYPETABLE, R-FINALCAST, R-PROMOTE",
     },
     "C16": {
         "rules": [M.rule_coindex, rule_passthrough_sort],
@@ -156,7 +156,7 @@ PROPERTIES = {
         "explanation": "R-COLLIDE, R-CASTORDER",
     },
     "C03": {
-        "rules": [rule_keys, rule_order, rule_global, rule_algebra],
+        "rules": [rule_keys, rule_order, rule_axiskey, rule_global, rule_algebra],
         "thorough": [selftest],
         "technique": "def-use closure of graph keys over enclosing loops; taint (unordered source -> block selection) with sanitizers; "
                      "module-state scan; associativity column of the monoid table",
@@ -165,17 +165,17 @@ PROPERTIES = {
                       "block selection through an unordered container, no reachable code touches module state, and every combine "
                       "operator is a row of the (associative) monoid table. Floating-point re-association, the tree-depth arithmetic and "
                       "actual schedules are not decided.",
-        "explanation": "R-KEYS, R-ORDER, R-GLOBAL, R-ALGEBRA",
+        "explanation": "R-KEYS, R-ORDER, R-AXISKEY, R-GLOBAL, R-ALGEBRA",
     },
     "C09": {
-        "rules": [rule_cover, rule_keys, rule_token],
+        "rules": [rule_cover, rule_keys, rule_axiskey, rule_token],
         "thorough": [selftest],
         "technique": "def-use closure checks on the planner's cohort->blocks map and on cohort sub-tree keys; content-named subset layers",
         "level_text": "Static, all-paths: the block set stored for a merged cohort is computed from the blocks of every member label (and "
                       "exact cohorts are keyed by each label's own block set), cohort sub-trees write pairwise distinct keys and every "
                       "cohort's subset layer is content-named. The partition/cover of labels produced by the heuristics is data dependent "
                       "and not decided.",
-        "explanation": "R-COVER, R-KEYS, R-TOKEN",
+        "explanation": "R-COVER, R-KEYS, R-AXISKEY, R-TOKEN",
     },
     "C04": {
         "rules": [rule_algebra, rule_parallel],
